@@ -165,6 +165,9 @@ class Interp:
             return z3.If(V.bval(v), z3.IntVal(1), z3.IntVal(0)), "int"
         if k == "float":
             return self.st.simp(V.rval(v)), "float"
+        if k is None and self.st.entails(z3.Or(V.is_int(v), V.is_float(v))):
+            # a number of unknown kind: usable as a real wherever the result kind does not depend on it
+            return z3.If(V.is_float(v), V.rval(v), z3.ToReal(V.ival(v))), "num"
         return None
 
     # ---- truthiness --------------------------------------------------------------------------
@@ -398,6 +401,8 @@ class Interp:
             return self.engine.opaque_binop(self, op, a, b, node)
         (x, kx), (y, ky) = na, nb
         isf = kx == "float" or ky == "float"
+        if not isf and "num" in (kx, ky):
+            raise Unsupported("arithmetic on numbers of unknown kind (int or float)")
         if isf:
             x = z3.ToReal(x) if kx == "int" else x
             y = z3.ToReal(y) if ky == "int" else y
